@@ -369,4 +369,7 @@ def final(ctx):
     # the field width of a region's prong is bitContain(WIDTH): the helper itself is decided by a static_assert witness (shared with C18.helpers)
     from . import helpwit
     helpwit.run(ctx, "C08.budget", only={"bitContain", "contain"})
+    # ... and the buffer the budget is measured against really has SERIAL_BITS bits (also for machines beyond 255 bits)
+    from . import sizewit
+    sizewit.run(ctx, "C08.budget")
 
